@@ -1,6 +1,7 @@
 import SamplyModel.Lemmas.PanicKernels
 import SamplyModel.Lemmas.C08Tied
 import SamplyModel.Lemmas.BreakpadServe
+import SamplyModel.Lemmas.JsonText
 import SamplyModel.Props.C10
 import SamplyModel.Props.C07
 /-!
@@ -386,6 +387,46 @@ theorem C08_symbolicate_over_breakpad_total (look : Sym.Look) (extOrder) (hext :
       intro hnil
       exact h2 (by rw [hfr, hnil])
 
+/-! ### Clauses (a) and (b): the text `Api::query_api` returns -/
+
+/-- **The error object is JSON.** For every message (any bytes: quotes, backslashes, control characters,
+multi-byte characters), the text samply builds by hand on all its error paths —
+`json!({ "error": msg }).to_string()`, modelled as `JT.errorJson` and compared byte for byte with serde_json by
+the `errjson` / `badurl` operations — is accepted by the independent RFC 8259 recogniser `JT.topObject` as one
+object whose only key is `error`, holding a string. -/
+theorem C08_error_object_is_json (msg : List UInt8) :
+    JT.topObject (JT.errorJson msg) = some [(JT.kError, JT.Kind.str)] :=
+  JT.topObject_errorJson msg
+
+/-- **Every path, every body: a JSON object that is a result or carries an error message.** `JT.queryApiText`
+follows lib.rs:197-210 and the three `query_api_json` wrappers; `inner` is the outcome of the endpoint's
+fallible part (any function: it stands for every request body and every state of the symbol files). Provided
+the *serialized result* of an endpoint is an acceptable text (serde's derived `Serialize` of the three
+`Response` structs — third-party, assumed here and checked by `C08.judge` with the same recogniser on every
+response the exploration produces), the returned text is acceptable for every path — known or not — and every
+outcome, in particular for every error message. -/
+theorem C08_api_text_acceptable (path : List UInt8)
+    (inner : JT.Endpoint → Except (List UInt8) (List UInt8))
+    (hres : ∀ e json, JT.dispatch path = some e → inner e = .ok json → JT.acceptable path json = true) :
+    JT.acceptable path (JT.queryApiText path inner) = true := by
+  have herr : ∀ m, JT.acceptable path (JT.errorJson m) = true := by
+    intro m
+    simp [JT.acceptable, JT.topObject_errorJson, JT.isResponse, JT.kindOf]
+  unfold JT.queryApiText
+  cases hd : JT.dispatch path with
+  | none => exact herr _
+  | some e =>
+    simp only
+    cases hi : inner e with
+    | ok json => exact hres e json hd hi
+    | error m => exact herr m
+
+/-- an unknown path never gets a result, whatever the endpoints would answer -/
+theorem C08_unknown_path_is_error (path : List UInt8) (inner : JT.Endpoint → Except (List UInt8) (List UInt8))
+    (h : JT.dispatch path = none) :
+    JT.queryApiText path inner = JT.errorJson (JT.unrecognized ++ path) := by
+  simp [JT.queryApiText, h]
+
 /-! ### The three repaired defects: the pre-fix kernels panic on the recorded inputs -/
 
 /-- b11d9ebc: `/asm/v1` with `"size":"0xfffffff8"` — `disassembly_len + 15` overflowed `u32`. -/
@@ -452,6 +493,10 @@ example : decodeLoop C08_toyDec 4 [1, 2, 3, 4, 0, 0, 0, 0, 5, 6, 7, 8, 9] 12 0 0
       · cases h
       · injection h with h; omega
 
+-- `{"results":[]}` is an acceptable answer of /symbolicate/v5 and of no other path; `{"error":null}` of none
+example : JT.acceptable JT.pathSymbolicate [123, 34, 114, 101, 115, 117, 108, 116, 115, 34, 58, 91, 93, 125] = true
+    ∧ JT.acceptable JT.pathAsm [123, 34, 114, 101, 115, 117, 108, 116, 115, 34, 58, 91, 93, 125] = false
+    ∧ JT.acceptable JT.pathAsm [123, 34, 101, 114, 114, 111, 114, 34, 58, 110, 117, 108, 108, 125] = false := by decide
 example : BsOk (bsearch1 0x1130 0x1140) 1 ∧ BsOk (.notFound 3) 3 := by decide
 example : asciiFollow [0x61, 0x2D, 0xC3, 0xA9, 0x2D, 0x31] = true
     ∧ utf8Shape [0x61, 0x2D, 0xC3, 0xA9, 0x2D, 0x31] = true := by decide
